@@ -263,9 +263,16 @@ impl ByteCompiler<'_> {
                     .emit_value_not_null_or_undefined(object.variable());
                 self.bytecode.emit_get_iterator(object.variable());
 
+                // NOTE: The VM removes an iterator from the iterator stack when its `next` method
+                //       or the access of the result throws, this register tells the handler if
+                //       the iterator of the pattern is still there to be closed.
+                let iterator_on_stack = self.register_allocator.alloc();
+                self.bytecode
+                    .emit_store_true(iterator_on_stack.variable());
+
                 let handler_index = self.push_handler();
                 for element in pattern.bindings() {
-                    self.compile_array_pattern_element(element, def);
+                    self.compile_array_pattern_element(element, def, &iterator_on_stack);
                 }
 
                 let no_exception_thrown = self.jump();
@@ -276,9 +283,12 @@ impl ByteCompiler<'_> {
                 self.bytecode
                     .emit_maybe_exception(has_exception.variable(), exception.variable());
 
+                let iterator_removed = self.jump_if_false(&iterator_on_stack);
                 let iterator_close_handler = self.push_handler();
                 self.iterator_close(false);
                 self.patch_handler(iterator_close_handler);
+                self.patch_jump(iterator_removed);
+                self.register_allocator.dealloc(iterator_on_stack);
 
                 let jump = self.jump_if_false(&has_exception);
                 self.register_allocator.dealloc(has_exception);
@@ -296,7 +306,27 @@ impl ByteCompiler<'_> {
         }
     }
 
-    fn compile_array_pattern_element(&mut self, element: &ArrayPatternElement, def: BindingOpcode) {
+    /// Steps the iterator of an array pattern, `value` receives the next value or `undefined`.
+    fn array_pattern_step(&mut self, value: &Register, iterator_on_stack: &Register) {
+        self.bytecode
+            .emit_store_false(iterator_on_stack.variable());
+        self.bytecode.emit_iterator_next();
+        self.bytecode.emit_iterator_done(value.variable());
+        self.if_else(
+            value,
+            |compiler| compiler.bytecode.emit_store_undefined(value.variable()),
+            |compiler| compiler.bytecode.emit_iterator_value(value.variable()),
+        );
+        self.bytecode
+            .emit_store_true(iterator_on_stack.variable());
+    }
+
+    fn compile_array_pattern_element(
+        &mut self,
+        element: &ArrayPatternElement,
+        def: BindingOpcode,
+        iterator_on_stack: &Register,
+    ) {
         use ArrayPatternElement::{
             Elision, Pattern, PatternRest, PropertyAccess, PropertyAccessRest, SingleName,
             SingleNameRest,
@@ -305,21 +335,19 @@ impl ByteCompiler<'_> {
         match element {
             // ArrayBindingPattern : [ Elision ]
             Elision => {
+                self.bytecode
+                    .emit_store_false(iterator_on_stack.variable());
                 self.bytecode.emit_iterator_next();
+                self.bytecode
+                    .emit_store_true(iterator_on_stack.variable());
             }
             // SingleNameBinding : BindingIdentifier Initializer[opt]
             SingleName {
                 ident,
                 default_init,
             } => {
-                self.bytecode.emit_iterator_next();
                 let value = self.register_allocator.alloc();
-                self.bytecode.emit_iterator_done(value.variable());
-                self.if_else(
-                    &value,
-                    |compiler| compiler.bytecode.emit_store_undefined(value.variable()),
-                    |compiler| compiler.bytecode.emit_iterator_value(value.variable()),
-                );
+                self.array_pattern_step(&value, iterator_on_stack);
 
                 if let Some(init) = default_init {
                     let skip = self.jump_if_not_undefined(&value);
@@ -336,13 +364,7 @@ impl ByteCompiler<'_> {
             } => {
                 let value = self.register_allocator.alloc();
                 self.access_set(Access::Property { access }, |compiler| {
-                    compiler.bytecode.emit_iterator_next();
-                    compiler.bytecode.emit_iterator_done(value.variable());
-                    compiler.if_else(
-                        &value,
-                        |compiler| compiler.bytecode.emit_store_undefined(value.variable()),
-                        |compiler| compiler.bytecode.emit_iterator_value(value.variable()),
-                    );
+                    compiler.array_pattern_step(&value, iterator_on_stack);
 
                     if let Some(init) = default_init {
                         let skip = compiler.jump_if_not_undefined(&value);
@@ -359,14 +381,8 @@ impl ByteCompiler<'_> {
                 pattern,
                 default_init,
             } => {
-                self.bytecode.emit_iterator_next();
                 let value = self.register_allocator.alloc();
-                self.bytecode.emit_iterator_done(value.variable());
-                self.if_else(
-                    &value,
-                    |compiler| compiler.bytecode.emit_store_undefined(value.variable()),
-                    |compiler| compiler.bytecode.emit_iterator_value(value.variable()),
-                );
+                self.array_pattern_step(&value, iterator_on_stack);
 
                 if let Some(init) = default_init {
                     let skip = self.jump_if_not_undefined(&value);
